@@ -3,6 +3,7 @@ package eng
 import (
 	"fmt"
 	"go/types"
+	"regexp"
 	"runtime/debug"
 	"strings"
 )
@@ -116,11 +117,52 @@ func (s *Session) verifyLemma(lm *Lemma) (res *FuncResult) {
 	return res
 }
 
-// assumeAxioms adds all trusted axioms to a state.
+func (lm *Lemma) pureSMT() bool {
+	for _, v := range lm.Vars {
+		fs := strings.SplitN(strings.TrimSpace(v), " ", 2)
+		if len(fs) != 2 || !isSMTSort(strings.TrimSpace(fs[1])) {
+			return false
+		}
+	}
+	return true
+}
+
+// assumeAxioms adds the heap-dependent trusted axioms to a state; axioms over SMT sorts
+// only are added by relevantAxioms once the spec functions they talk about are in use.
 func (x *Exec) assumeAxioms(st *State) {
 	for _, lm := range x.CS.Lemmas {
-		if lm.Trusted {
+		if lm.Trusted && !lm.pureSMT() {
 			st.Assume(x.lemmaTerm(st, lm, true))
+		}
+	}
+}
+
+var identCallRe = regexp.MustCompile(`([A-Za-z_][A-Za-z0-9_]*)\(`)
+
+// relevantAxioms asserts (globally) every pure axiom that mentions a spec function
+// declared in this context; iterated to a fixpoint.
+func (x *Exec) relevantAxioms() {
+	done := map[*Lemma]bool{}
+	for changed := true; changed; {
+		changed = false
+		for _, lm := range x.CS.Lemmas {
+			if !lm.Trusted || !lm.pureSMT() || done[lm] {
+				continue
+			}
+			rel := false
+			for _, m := range identCallRe.FindAllStringSubmatch(lm.C.Text, -1) {
+				if x.specDeclared["sf_"+m[1]] {
+					rel = true
+				}
+			}
+			if !rel {
+				continue
+			}
+			done[lm] = true
+			changed = true
+			st := x.blankState()
+			t := x.lemmaTerm(st, lm, true)
+			x.D.Raw("(assert " + t.S + ")")
 		}
 	}
 }
